@@ -216,6 +216,20 @@ func (g *genCase) pickID(r *Rng) int {
 	return r.Intn(len(g.ids))
 }
 
+// another identity at the same height if there is one (so that re-pointing the height changes its value)
+func (g *genCase) otherAtHeight(r *Rng, i int) int {
+	var l []int
+	for j, id := range g.ids {
+		if j != i && id.base.Height == g.ids[i].base.Height {
+			l = append(l, j)
+		}
+	}
+	if len(l) == 0 {
+		return i
+	}
+	return l[r.Intn(len(l))]
+}
+
 func (g *genCase) pickHeight(r *Rng) uint64 {
 	switch x := r.Intn(100); {
 	case x < 60:
@@ -318,7 +332,7 @@ func (g *genCase) genOps(r *Rng, c *Ctx) {
 			n := r.Intn(4)
 			var l []int
 			for i := 0; i < n; i++ {
-				l = append(l, g.pickID(r))
+				l = append(l, r.Intn(len(g.ids)))
 			}
 			push(opSpec{kind: "SaveChainStatus", main: l})
 		case x < 31:
@@ -360,7 +374,38 @@ func (g *genCase) genOps(r *Rng, c *Ctx) {
 		default:
 			// read, overwrite what was read, read again
 			id := g.pickID(r)
-			switch r.Intn(5) {
+			switch r.Intn(7) {
+			case 5:
+				// one SaveChainStatus re-pointing several heights that were all read before
+				a1, b1 := r.Intn(len(g.ids)), r.Intn(len(g.ids))
+				a2, b2 := g.otherAtHeight(r, a1), g.otherAtHeight(r, b1)
+				push(opSpec{kind: "SaveChainStatus", main: []int{a1, b1}})
+				push(opSpec{kind: "GetMainChainHash", height: g.ids[a1].base.Height})
+				push(opSpec{kind: "GetMainChainHash", height: g.ids[b1].base.Height})
+				if r.Bool() {
+					push(opSpec{kind: "SaveChainStatus", main: []int{a2, b2}})
+				} else {
+					push(opSpec{kind: "SaveChainStatus", main: []int{b2, a2, r.Intn(len(g.ids))}})
+				}
+				push(opSpec{kind: "GetMainChainHash", height: g.ids[a1].base.Height})
+				push(opSpec{kind: "GetMainChainHash", height: g.ids[b1].base.Height})
+			case 6:
+				// one SaveCheckpoints rewriting several checkpoints that were all read before
+				a, b := r.Intn(len(g.ids)), r.Intn(len(g.ids))
+				for _, x := range []int{a, b} {
+					if r.Chance(50) {
+						push(opSpec{kind: "SaveBlock", id: x, hv: genHdrVar(r), txs: genTxs(r)})
+					}
+				}
+				mk := func(x int) cpVar {
+					return cpVar{height: g.ids[x].base.Height, id: x, status: r.Intn(4), v: 1 + r.Intn(5)}
+				}
+				push(opSpec{kind: "SaveCheckpoints", cps: []cpVar{mk(a), mk(b)}})
+				push(opSpec{kind: "GetCheckpoint", id: a})
+				push(opSpec{kind: "GetCheckpoint", id: b})
+				push(opSpec{kind: "SaveCheckpoints", cps: []cpVar{mk(a), mk(b)}})
+				push(opSpec{kind: "GetCheckpoint", id: a})
+				push(opSpec{kind: "GetCheckpoint", id: b})
 			case 0:
 				push(opSpec{kind: "GetBlockHeader", id: id})
 				push(opSpec{kind: "SaveBlockHeader", id: id, hv: genHdrVar(r)})
@@ -959,7 +1004,7 @@ func runC21(c *Ctx) error {
 	logrus.SetLevel(logrus.PanicLevel) // the store logs every save
 	c.Stats.Rule = "a case counts as non-trivial when a block header, main-chain height or checkpoint that had been read through the store was overwritten later in the same history, or one checkpoint was read more than once; distinct by the full case (universe, capacities, history)"
 	c.Cases.Shard = 150
-	n := c.N(1200, 6000)
+	n := c.N(900, 6000)
 	for i := 0; i < n; i++ {
 		g := genUniverse(c.Rng, c)
 		g.genOps(c.Rng, c)
